@@ -15,7 +15,8 @@
    * that a periodic lattice is closed (every directed edge in a plaquette) is a hypothesis of
      the parity theorems (it fails e.g. when a face winds around the torus and is filtered). *)
 From Coq Require Import List ZArith Bool Arith Permutation.
-From Koala Require Import Model.Lattice Model.Flux Proofs.FluxFacts Proofs.FluxLattice Proofs.FluxAdjacent.
+From Koala Require Import Model.Lattice Model.Flux Proofs.FluxFacts Proofs.FluxLattice Proofs.FluxAdjacent
+     Proofs.FluxGaugeGroup.
 Import ListNotations.
 Open Scope Z_scope.
 
@@ -169,6 +170,27 @@ Theorem C05_gauge_invariant_model : forall (L : lattice) (v : nat) (u : list Z),
   /\ fluxes_from_ujk_cplx L (gauge L v u) = fluxes_from_ujk_cplx L u.
 Proof. exact model_fluxes_gauge_invariant. Qed.
 Print Assumptions C05_gauge_invariant_model.
+
+(* clause 4 for the whole gauge group: ANY finite composition of vertex gauge flips (any vertices, any order, repeats
+   allowed) leaves the whole flux vector unchanged; the composition acts on each bond by the parity of the number of
+   listed vertices incident on its edge; each flip is an involution and flips commute *)
+Theorem C05_gauge_group_invariant_model : forall (L : lattice) (vs : list nat) (u : list Z),
+  wf_lattice L = true -> no_self_loops L = true ->
+  fluxes_from_ujk L (gauge_many L vs u) = fluxes_from_ujk L u
+  /\ fluxes_from_ujk_cplx L (gauge_many L vs u) = fluxes_from_ujk_cplx L u.
+Proof. exact model_fluxes_gauge_many_invariant. Qed.
+Print Assumptions C05_gauge_group_invariant_model.
+Theorem C05_gauge_group_action : forall (L : lattice) (vs : list nat) (u : list Z) (e : nat),
+  bond (gauge_many L vs u) e =
+  (if Nat.even (length (filter (fun v => incident_b L v e) vs)) then bond u e else - bond u e)
+  /\ length (gauge_many L vs u) = length u.
+Proof. intros L vs u e. split; [exact (gauge_many_bond L vs u e) | exact (gauge_many_length L vs u)]. Qed.
+Print Assumptions C05_gauge_group_action.
+Theorem C05_gauge_involutive_commutative : forall (L : lattice) (v w : nat) (u : list Z) (e : nat),
+  bond (gauge L v (gauge L v u)) e = bond u e
+  /\ bond (gauge L v (gauge L w u)) e = bond (gauge L w (gauge L v u)) e.
+Proof. intros L v w u e. split; [exact (gauge_involutive_bond L v u e) | exact (gauge_commute_bond L v w u e)]. Qed.
+Print Assumptions C05_gauge_involutive_commutative.
 
 (* every plaquette of the model satisfies the boolean side condition of C05_gauge_invariant_plaquette *)
 Theorem C05_model_plaquette_consistent : forall (L : lattice) (ps : list plaquette) (p : plaquette),
